@@ -7,6 +7,7 @@ import (
 	"runtime"
 	"sync"
 	"sync/atomic"
+	"time"
 
 	"gitlab.com/aquachain/aquachain/common"
 	"gitlab.com/aquachain/aquachain/core/types"
@@ -36,7 +37,7 @@ type wop struct {
 }
 
 func runConc(c *fw.Ctx) {
-	n := c.Pick(4, 40)
+	n := c.Pick(3, 40)
 	for i := 0; i < n; i++ {
 		r := c.Rand("conc", fmt.Sprint(i))
 		workers := []int{8, 12, 16, 24, 32}[r.Intn(5)]
@@ -189,6 +190,7 @@ func runConcCase(c *fw.Ctx, r *fw.Rand, in concInput, id string) {
 			<-start
 			n := 0
 			last := s0
+			seen := int64(-4)
 			for {
 				select {
 				case <-stop:
@@ -196,11 +198,17 @@ func runConcCase(c *fw.Ctx, r *fw.Rand, in concInput, id string) {
 					return
 				default:
 				}
+				// one sample per four completed operations: the sampler's work is
+				// bounded by the workload, not by how long the machine takes
+				if atomic.LoadInt64(&seq) < seen+4 {
+					time.Sleep(20 * time.Microsecond)
+					continue
+				}
+				seen = atomic.LoadInt64(&seq)
 				s := u.snapshot()
 				u.checkInv(s, opCtx{op: "concurrent", before: last})
 				last = s
 				n++
-				runtime.Gosched()
 			}
 		}()
 		close(start)
